@@ -29,31 +29,15 @@ def _load(sidecars):
 
 def verify_one(task):
     """Worker: verify + discharge one function / lemma. Returns a plain dict."""
-    sidecars, key = task
+    sidecars, key, djobs = task
     t0 = time.time()
     try:
         from pyvc import verify
         reg, sources = _load(sidecars)
         rep = verify.verify_function(reg, sources, key)
         if rep.status == "ok":
-            verify.discharge(rep)
-        obls = []
-        for o in rep.obligations:
-            d = {k: v for k, v in o.items() if not k.startswith("_")}
-            if o.get("status") == "failed" and "_ob" in o:
-                d["smt2_size"] = None
-                try:
-                    import z3
-                    s = z3.Solver()
-                    for c in o["_ob"].pc:
-                        s.add(c)
-                    s.add(z3.Not(o["_ob"].goal))
-                    d["smt2"] = s.to_smt2()[:200000]
-                    m = o.get("_model")
-                    d["model_full"] = str(m)[:20000] if m is not None else None
-                except Exception:
-                    pass
-            obls.append(d)
+            verify.discharge(rep, jobs=djobs)
+        obls = [verify._plain(o) for o in rep.obligations]
         c = reg.contracts.get(key)
         return {"key": key, "status": rep.status, "reason": rep.reason, "span": rep.span, "digest": rep.digest,
                 "dropped": rep.dropped, "paths": rep.paths, "obligations": obls,
@@ -153,7 +137,8 @@ def main(argv):
         print(f"CHECKER-ERROR builtin axiom disagrees with CPython: {ax_bad[:3]}")
         return 3
     # ---- proof obligations
-    tasks = [(tuple(P.sidecars), k) for k in P.prove]
+    djobs = max(1, args.jobs // max(1, len(P.prove)))  # spare cores discharge one function's obligations in parallel
+    tasks = [(tuple(P.sidecars), k, djobs) for k in P.prove]
     results = []
     if tasks:
         nproc = max(1, min(args.jobs, len(tasks)))
